@@ -165,8 +165,9 @@ Proof.
   destruct (N.eqb (ro_mid ro) (r_mid r)); [reflexivity | cbn [negb] in H; discriminate].
 Qed.
 
-(* one step: either the connection already held the tunnel, or this very event is an accepted open by it (logged), or
-   the routing poll of its own parked request fired (logged) *)
+(* one step: either the connection already held the tunnel, or this very event is an accepted open by it (logged), or the routing
+   poll of its own parked request fired and it was forwarded (logged), or its own wait inside handleLocalBridgeWait found a bridge
+   and it was attached (logged) *)
 Lemma step_holds :
   forall v cfg s e cr t,
     holds (step v cfg s e) cr t ->
@@ -177,10 +178,13 @@ Lemma step_holds :
                   (cr, t, entitledb (s_db s) c r (tunnel_mid (s_tun s) (s_rt s) r)) :: s_log s) \/
     (e = EResolve cr /\ exists r ok ro, In (cr, r, ok) (s_park s) /\ r_tid r = t /\ s_rt s t = Some ro /\
                 attaches (cross v cfg ro r) = true /\
-                s_log (step v cfg s e) = (cr, t, ok && N.eqb (ro_mid ro) (r_mid r)) :: s_log s).
+                s_log (step v cfg s e) = (cr, t, ok && N.eqb (ro_mid ro) (r_mid r)) :: s_log s) \/
+    (e = EWaitResolve cr /\ exists r ok b, In (cr, r, ok) (s_wait s) /\ r_tid r = t /\ s_tun s t = Some b /\
+                (v_wait_agree v && negb (N.eqb (b_mid b) (r_mid r))) = false /\
+                s_log (step v cfg s e) = (cr, t, ok && N.eqb (b_mid b) (r_mid r)) :: s_log s).
 Proof.
   intros v cfg s e cr t.
-  destruct e as [cr0 c r | m x | t0 x | t0 | cr0 t0 | cr0 | cr0]; cbn [step].
+  destruct e as [cr0 c r | m x | t0 x | t0 | cr0 t0 | cr0 | cr0 | cr0]; cbn [step].
   - (* EOpen *)
     destruct (open v cfg (s_db s) (s_tun s) (s_rt s) c r) eqn:Ho; intro H.
     + left; exact H.
@@ -218,12 +222,7 @@ Proof.
       * destruct Hin as [Heq | Hin].
         -- injection Heq as <- <-. right. left. exists c, r. fin_open Ho.
         -- left. right. exact Hin.
-    + (* WaitLocal *)
-      destruct H as [[b' [Hb' Hor]] | Hin]; cbn [s_tun s_fwd] in *.
-      * left. left. exists b'. split; assumption.
-      * destruct Hin as [Heq | Hin].
-        -- injection Heq as <- <-. right. left. exists c, r. fin_open Ho.
-        -- left. right. exact Hin.
+    + (* WaitLocal: only enters the wait *) left. exact H.
     + left; exact H.
     + (* Parked *) left. exact H.
   - (* ESetMapping *) intro H. left. exact H.
@@ -247,30 +246,33 @@ Proof.
     destruct (cross v cfg ro r) eqn:Hc; intro H;
       try (left; destruct H as [[b' [Hb' Hor]] | Hin]; cbn [s_tun s_fwd] in *;
            [left; exists b'; split; assumption | right; exact Hin]).
-    + (* Forward *)
-      destruct H as [[b' [Hb' Hor]] | Hin]; cbn [s_tun s_fwd] in *.
-      * left. left. exists b'. split; assumption.
-      * destruct Hin as [Heq | Hin].
-        -- injection Heq as <- <-. right. right. split; [reflexivity|].
-           exists r, ok, ro. rewrite Hc. repeat split; try reflexivity; assumption.
-        -- left. right. exact Hin.
-    + (* WaitLocal *)
-      destruct (s_tun s (r_tid r)) as [b|] eqn:Hb.
-      * destruct H as [[b' [Hb' Hor]] | Hin]; cbn [s_tun s_fwd] in *.
-        -- unfold upd in Hb'. destruct (N.eqb t (r_tid r)) eqn:Ht.
-           ++ apply N.eqb_eq in Ht. injection Hb' as <-. cbn [b_src b_tgt] in Hor.
-              destruct Hor as [Hs | Htg].
-              ** left. left. exists b. subst t. split; [exact Hb | left; exact Hs].
-              ** injection Htg as <-. right. right. split; [reflexivity|].
-                 exists r, ok, ro. subst t. rewrite Hc. repeat split; try reflexivity; assumption.
-           ++ left. left. exists b'. split; assumption.
-        -- left. right. exact Hin.
-      * left. destruct H as [[b' [Hb' Hor]] | Hin]; cbn [s_tun s_fwd] in *;
-          [left; exists b'; split; assumption | right; exact Hin].
+    (* Forward *)
+    destruct H as [[b' [Hb' Hor]] | Hin]; cbn [s_tun s_fwd] in *.
+    + left. left. exists b'. split; assumption.
+    + destruct Hin as [Heq | Hin].
+      * injection Heq as <- <-. right. right. left. split; [reflexivity|].
+        exists r, ok, ro. rewrite Hc. repeat split; try reflexivity; assumption.
+      * left. right. exact Hin.
   - (* ETimeout *) intro H. left. exact H.
+  - (* EWaitResolve *)
+    destruct (find (parked_of cr0) (s_wait s)) as [[[crp r] ok]|] eqn:Hf; [|intro H; left; exact H].
+    apply find_parked_some in Hf. destruct Hf as [Hinp Hcr]. cbn [fst] in Hcr. subst crp.
+    destruct (s_tun s (r_tid r)) as [b|] eqn:Hb; [|intro H; left; exact H].
+    destruct (v_wait_agree v && negb (N.eqb (b_mid b) (r_mid r))) eqn:Hag; intro H.
+    + left. destruct H as [[b' [Hb' Hor]] | Hin]; cbn [s_tun s_fwd] in *;
+        [left; exists b'; split; assumption | right; exact Hin].
+    + destruct H as [[b' [Hb' Hor]] | Hin]; cbn [s_tun s_fwd] in *.
+      * unfold upd in Hb'. destruct (N.eqb t (r_tid r)) eqn:Ht.
+        -- apply N.eqb_eq in Ht. injection Hb' as <-. cbn [b_src b_tgt] in Hor.
+           destruct Hor as [Hs | Htg].
+           ++ left. left. exists b. subst t. split; [exact Hb | left; exact Hs].
+           ++ injection Htg as <-. right. right. right. split; [reflexivity|].
+              exists r, ok, b. subst t. repeat split; try reflexivity; assumption.
+        -- left. left. exists b'. split; assumption.
+      * left. right. exact Hin.
 Qed.
 
-(* the ghost log only grows, and only by the entry of the current accepted open / resolved parked request *)
+(* the ghost log only grows, and only by the entry of the current accepted open / forwarded parked request / attached waiter *)
 Lemma step_log :
   forall v cfg s e,
     s_log (step v cfg s e) = s_log s \/
@@ -280,10 +282,13 @@ Lemma step_log :
         (cr, r_tid r, entitledb (s_db s) c r (tunnel_mid (s_tun s) (s_rt s) r)) :: s_log s) \/
     (exists cr r ok ro, e = EResolve cr /\ In (cr, r, ok) (s_park s) /\ s_rt s (r_tid r) = Some ro /\
       attaches (cross v cfg ro r) = true /\
-      s_log (step v cfg s e) = (cr, r_tid r, ok && N.eqb (ro_mid ro) (r_mid r)) :: s_log s).
+      s_log (step v cfg s e) = (cr, r_tid r, ok && N.eqb (ro_mid ro) (r_mid r)) :: s_log s) \/
+    (exists cr r ok b, e = EWaitResolve cr /\ In (cr, r, ok) (s_wait s) /\ s_tun s (r_tid r) = Some b /\
+      (v_wait_agree v && negb (N.eqb (b_mid b) (r_mid r))) = false /\
+      s_log (step v cfg s e) = (cr, r_tid r, ok && N.eqb (b_mid b) (r_mid r)) :: s_log s).
 Proof.
   intros v cfg s e.
-  destruct e as [cr0 c r | m x | t0 x | t0 | cr0 t0 | cr0 | cr0]; cbn [step]; try (left; reflexivity).
+  destruct e as [cr0 c r | m x | t0 x | t0 | cr0 t0 | cr0 | cr0 | cr0]; cbn [step]; try (left; reflexivity).
   2: { destruct (s_tun s t0); left; reflexivity. }
   - destruct (open v cfg (s_db s) (s_tun s) (s_rt s) c r) eqn:Ho; try (left; reflexivity).
     + destruct (s_tun s (r_tid r)); [|left; reflexivity].
@@ -292,17 +297,19 @@ Proof.
       right. left. exists cr0, c, r. rewrite Ho. repeat split; reflexivity.
     + right. left. exists cr0, c, r. rewrite Ho. repeat split; reflexivity.
     + right. left. exists cr0, c, r. rewrite Ho. repeat split; reflexivity.
-    + right. left. exists cr0, c, r. rewrite Ho. repeat split; reflexivity.
   - destruct (find (parked_of cr0) (s_park s)) as [[[crp r] ok]|] eqn:Hf; [|left; reflexivity].
     apply find_parked_some in Hf. destruct Hf as [Hinp Hcr]. cbn [fst] in Hcr. subst crp.
     destruct (s_rt s (r_tid r)) as [ro|] eqn:Hrt; [|left; reflexivity].
     destruct (cross v cfg ro r) eqn:Hc; try (left; reflexivity).
-    + right. right. exists cr0, r, ok, ro. rewrite Hc. repeat split; try reflexivity; assumption.
-    + destruct (s_tun s (r_tid r)); [|left; reflexivity].
-      right. right. exists cr0, r, ok, ro. rewrite Hc. repeat split; try reflexivity; assumption.
+    right. right. left. exists cr0, r, ok, ro. rewrite Hc. repeat split; try reflexivity; assumption.
+  - destruct (find (parked_of cr0) (s_wait s)) as [[[crp r] ok]|] eqn:Hf; [|left; reflexivity].
+    apply find_parked_some in Hf. destruct Hf as [Hinp Hcr]. cbn [fst] in Hcr. subst crp.
+    destruct (s_tun s (r_tid r)) as [b|] eqn:Hb; [|left; reflexivity].
+    destruct (v_wait_agree v && negb (N.eqb (b_mid b) (r_mid r))) eqn:Hag; [left; reflexivity|].
+    right. right. right. exists cr0, r, ok, b. repeat split; try reflexivity; assumption.
 Qed.
 
-(* who is parked after a step: already parked, or this event is an accepted open of that connection *)
+(* who polls the routing table after a step: already did, or this event is an accepted open of that connection *)
 Lemma step_park :
   forall v cfg s e p,
     In p (s_park (step v cfg s e)) ->
@@ -312,7 +319,7 @@ Lemma step_park :
       snd p = entitledb (s_db s) c r (tunnel_mid (s_tun s) (s_rt s) r).
 Proof.
   intros v cfg s e p.
-  destruct e as [cr0 c r | m x | t0 x | t0 | cr0 t0 | cr0 | cr0]; cbn [step]; try (intro H; left; exact H).
+  destruct e as [cr0 c r | m x | t0 x | t0 | cr0 t0 | cr0 | cr0 | cr0]; cbn [step]; try (intro H; left; exact H).
   2: { destruct (s_tun s t0); intro H; left; exact H. }
   - destruct (open v cfg (s_db s) (s_tun s) (s_rt s) c r) eqn:Ho; try (intro H; left; exact H).
     + destruct (s_tun s (r_tid r)); intro H; left; exact H.
@@ -323,39 +330,76 @@ Proof.
     destruct (s_rt s (r_tid r)) as [ro|]; [|intro H; left; exact H].
     assert (Hsub : In p (unpark cr0 (s_park s)) -> In p (s_park s)).
     { intro H. apply filter_In in H. destruct H as [H _]. exact H. }
-    destruct (cross v cfg ro r); try (cbn [s_park]; intro H; left; apply Hsub; exact H).
-    destruct (s_tun s (r_tid r)); cbn [s_park]; intro H; left; apply Hsub; exact H.
+    destruct (cross v cfg ro r); cbn [s_park]; intro H; left; apply Hsub; exact H.
   - cbn [s_park]. intro H. left. apply filter_In in H. destruct H as [H _]. exact H.
+  - destruct (find (parked_of cr0) (s_wait s)) as [[[crp r] ok]|]; [|intro H; left; exact H].
+    destruct (s_tun s (r_tid r)) as [b|]; [|intro H; left; exact H].
+    destruct (v_wait_agree v && negb (N.eqb (b_mid b) (r_mid r))); cbn [s_park]; intro H; left; exact H.
+Qed.
+
+(* who waits inside handleLocalBridgeWait after a step: already did, or this event is an accepted open of that connection that the
+   record sent there, or its routing poll fired on a record that says "this node" *)
+Lemma step_wait :
+  forall v cfg s e p,
+    In p (s_wait (step v cfg s e)) ->
+    In p (s_wait s) \/
+    (exists c r, e = EOpen (fst (fst p)) c r /\
+      attaches (open v cfg (s_db s) (s_tun s) (s_rt s) c r) = true /\
+      snd p = entitledb (s_db s) c r (tunnel_mid (s_tun s) (s_rt s) r)) \/
+    (exists r ok ro, e = EResolve (fst (fst p)) /\ In (fst (fst p), r, ok) (s_park s) /\ s_rt s (r_tid r) = Some ro /\
+      attaches (cross v cfg ro r) = true /\ snd p = ok && N.eqb (ro_mid ro) (r_mid r)).
+Proof.
+  intros v cfg s e p.
+  destruct e as [cr0 c r | m x | t0 x | t0 | cr0 t0 | cr0 | cr0 | cr0]; cbn [step]; try (intro H; left; exact H).
+  2: { destruct (s_tun s t0); intro H; left; exact H. }
+  - destruct (open v cfg (s_db s) (s_tun s) (s_rt s) c r) eqn:Ho; try (intro H; left; exact H).
+    + destruct (s_tun s (r_tid r)); intro H; left; exact H.
+    + destruct (s_tun s (r_tid r)); intro H; left; exact H.
+    + cbn [s_wait]. intro H. apply in_app_or in H. destruct H as [H | [H | []]]; [left; exact H|].
+      subst p. right. left. exists c, r. cbn [fst snd]. rewrite Ho. repeat split; reflexivity.
+  - destruct (find (parked_of cr0) (s_park s)) as [[[crp r] ok]|] eqn:Hf; [|intro H; left; exact H].
+    apply find_parked_some in Hf. destruct Hf as [Hinp Hcr]. cbn [fst] in Hcr. subst crp.
+    destruct (s_rt s (r_tid r)) as [ro|] eqn:Hrt; [|intro H; left; exact H].
+    destruct (cross v cfg ro r) eqn:Hc; cbn [s_wait]; try (intro H; left; exact H).
+    intro H. apply in_app_or in H. destruct H as [H | [H | []]]; [left; exact H|].
+    subst p. right. right. cbn [fst snd]. exists r, ok, ro. rewrite Hc. repeat split; try reflexivity; assumption.
+  - cbn [s_wait]. intro H. left. apply filter_In in H. destruct H as [H _]. exact H.
+  - destruct (find (parked_of cr0) (s_wait s)) as [[[crp r] ok]|]; [|intro H; left; exact H].
+    destruct (s_tun s (r_tid r)) as [b|]; [|intro H; left; exact H].
+    destruct (v_wait_agree v && negb (N.eqb (b_mid b) (r_mid r))); cbn [s_wait]; intro H; left;
+      apply filter_In in H; destruct H as [H _]; exact H.
 Qed.
 
 Definition inv (s : sys) : Prop :=
   (forall cr t, holds s cr t -> In (cr, t) (log_keys s)) /\
   (forall e, In e (s_log s) -> snd e = true) /\
-  (forall p, In p (s_park s) -> snd p = true).
+  (forall p, In p (s_park s) -> snd p = true) /\
+  (forall p, In p (s_wait s) -> snd p = true).
 
 Lemma inv_init : forall d rt, inv (init d rt).
 Proof.
-  intros d rt. split; [|split].
+  intros d rt. split; [|split; [|split]].
   - intros cr t [[b [Hb _]] | Hin]; cbn in *; [discriminate | contradiction].
   - intros e H. cbn in H. contradiction.
+  - intros p H. cbn in H. contradiction.
   - intros p H. cbn in H. contradiction.
 Qed.
 
 Lemma inv_step : forall cfg s e, inv s -> inv (step current cfg s e).
 Proof.
-  intros cfg s e [Hheld [Hlog Hpark]]. split; [|split].
+  intros cfg s e [Hheld [Hlog [Hpark Hwait]]]. split; [|split; [|split]].
   - intros cr t H.
-    destruct (step_holds current cfg s e cr t H) as [Hold | [[c [r [He [Ht [Hatt Hl]]]]] | [He [r [ok [ro [Hin [Ht [Hrt [Hatt Hl]]]]]]]]]].
-    + specialize (Hheld cr t Hold).
-      unfold log_keys in *.
-      destruct (step_log current cfg s e) as [Hsame | [[cr' [c' [r' [_ [_ Hl]]]]] | [cr' [r' [ok' [ro' [_ [_ [_ [_ Hl]]]]]]]]]].
-      * rewrite Hsame. exact Hheld.
-      * rewrite Hl. cbn [map]. right. exact Hheld.
-      * rewrite Hl. cbn [map]. right. exact Hheld.
+    assert (Hgrow : forall k, In k (log_keys s) -> In k (log_keys (step current cfg s e))).
+    { intros k Hk. unfold log_keys in *.
+      destruct (step_log current cfg s e) as [Hsame | [[cr' [c' [r' [_ [_ Hl]]]]] | [[cr' [r' [ok' [ro' [_ [_ [_ [_ Hl]]]]]]]] | [cr' [r' [ok' [b' [_ [_ [_ [_ Hl]]]]]]]]]]];
+        [rewrite Hsame; exact Hk | rewrite Hl; cbn [map]; right; exact Hk | rewrite Hl; cbn [map]; right; exact Hk | rewrite Hl; cbn [map]; right; exact Hk]. }
+    destruct (step_holds current cfg s e cr t H) as [Hold | [[c [r [He [Ht [Hatt Hl]]]]] | [[He [r [ok [ro [Hin [Ht [Hrt [Hatt Hl]]]]]]]] | [He [r [ok [b [Hin [Ht [Hb [Hag Hl]]]]]]]]]]].
+    + apply Hgrow. apply Hheld. exact Hold.
+    + unfold log_keys. rewrite Hl. cbn [map fst]. left. reflexivity.
     + unfold log_keys. rewrite Hl. cbn [map fst]. left. reflexivity.
     + unfold log_keys. rewrite Hl. cbn [map fst]. left. reflexivity.
   - intros en Hin.
-    destruct (step_log current cfg s e) as [Hsame | [[cr' [c' [r' [_ [Hatt Hl]]]]] | [cr' [r' [ok' [ro' [_ [Hinp [_ [Hatt Hl]]]]]]]]]].
+    destruct (step_log current cfg s e) as [Hsame | [[cr' [c' [r' [_ [Hatt Hl]]]]] | [[cr' [r' [ok' [ro' [_ [Hinp [_ [Hatt Hl]]]]]]]] | [cr' [r' [ok' [b' [_ [Hinw [_ [Hag Hl]]]]]]]]]]].
     + rewrite Hsame in Hin. apply Hlog. exact Hin.
     + rewrite Hl in Hin. destruct Hin as [Heq | Hin].
       * subst en. cbn [snd]. apply (attach_implies_entitled cfg). exact Hatt.
@@ -364,10 +408,20 @@ Proof.
       * subst en. cbn [snd]. specialize (Hpark _ Hinp). cbn [snd] in Hpark. rewrite Hpark.
         rewrite (cross_current_agrees cfg ro' r' Hatt). reflexivity.
       * apply Hlog. exact Hin.
+    + rewrite Hl in Hin. destruct Hin as [Heq | Hin].
+      * subst en. cbn [snd]. specialize (Hwait _ Hinw). cbn [snd] in Hwait. rewrite Hwait.
+        cbn [current v_wait_agree andb] in Hag. destruct (N.eqb (b_mid b') (r_mid r')); [reflexivity | discriminate].
+      * apply Hlog. exact Hin.
   - intros p Hin.
     destruct (step_park current cfg s e p Hin) as [Hold | [c [r [_ [Hatt Hp]]]]].
     + apply Hpark. exact Hold.
     + rewrite Hp. apply (attach_implies_entitled cfg). exact Hatt.
+  - intros p Hin.
+    destruct (step_wait current cfg s e p Hin) as [Hold | [[c [r [_ [Hatt Hp]]]] | [r [ok [ro [_ [Hinp [_ [Hatt Hp]]]]]]]]].
+    + apply Hwait. exact Hold.
+    + rewrite Hp. apply (attach_implies_entitled cfg). exact Hatt.
+    + rewrite Hp. specialize (Hpark _ Hinp). cbn [snd] in Hpark. rewrite Hpark.
+      rewrite (cross_current_agrees cfg ro r Hatt). reflexivity.
 Qed.
 
 Lemma inv_run : forall cfg es s, inv s -> inv (run current cfg s es).
@@ -378,7 +432,8 @@ Proof.
 Qed.
 
 (* over ALL histories from a fresh session manager: whoever receives tunnel traffic got there through a TunnelOpen
-   that was entitled (to the tunnel's mapping, at the moment it was validated) *)
+   that was entitled (to the mapping of the bridge it is wired into / of the record it was forwarded on, as validated on arrival
+   and re-compared when a parked or waiting request finally proceeds) *)
 Lemma held_only_via_entitled_open :
   forall cfg d rt es cr t,
     holds (run current cfg (init d rt) es) cr t ->
@@ -391,7 +446,7 @@ Proof.
   specialize (Hlog _ Hin). cbn [snd] in Hlog. subst ok. exact Hin.
 Qed.
 
-(* a connection all of whose opens were refused never holds any tunnel and is never parked — for EVERY variant of the
+(* a connection all of whose opens were refused never holds any tunnel, never polls and never waits — for EVERY variant of the
    dispatcher: the attachment points are reachable only through open *)
 Lemma refused_never_holds :
   forall v cfg es s cr,
@@ -404,21 +459,26 @@ Proof.
   - cbn [all_refused] in Hall. destruct Hall as [Hhead Htail].
     apply (IH (step v cfg s e) cr); [| |exact Htail].
     + intros t' Hh.
-      destruct (step_holds v cfg s e cr t' Hh) as [Hold | [[c [r [He [Ht [Hatt _]]]]] | [He [r [ok [ro [Hin _]]]]]]].
+      destruct (step_holds v cfg s e cr t' Hh) as [Hold | [[c [r [He [Ht [Hatt _]]]]] | [[He [r [ok [ro [Hin _]]]]] | [He [r [ok [b [Hin _]]]]]]]].
       * exact (Hno t' Hold).
       * subst e. specialize (Hhead eq_refl). rewrite Hhead in Hatt. discriminate.
-      * apply Hnp. exists r, ok. exact Hin.
-    + intros [r [ok Hin]].
-      destruct (step_park v cfg s e _ Hin) as [Hold | [c [r' [He [Hatt _]]]]].
-      * apply Hnp. exists r, ok. exact Hold.
-      * cbn [fst] in He. subst e. specialize (Hhead eq_refl). rewrite Hhead in Hatt. discriminate.
+      * apply Hnp. exists r, ok. left. exact Hin.
+      * apply Hnp. exists r, ok. right. exact Hin.
+    + intros [r [ok [Hin | Hin]]].
+      * destruct (step_park v cfg s e _ Hin) as [Hold | [c [r' [He [Hatt _]]]]].
+        -- apply Hnp. exists r, ok. left. exact Hold.
+        -- cbn [fst] in He. subst e. specialize (Hhead eq_refl). rewrite Hhead in Hatt. discriminate.
+      * destruct (step_wait v cfg s e _ Hin) as [Hold | [[c [r' [He [Hatt _]]]] | [r' [ok' [ro [He [Hinp _]]]]]]].
+        -- apply Hnp. exists r, ok. right. exact Hold.
+        -- cbn [fst] in He. subst e. specialize (Hhead eq_refl). rewrite Hhead in Hatt. discriminate.
+        -- cbn [fst] in Hinp. apply Hnp. exists r', ok'. left. exact Hinp.
 Qed.
 
 Lemma init_holds_nothing : forall d rt cr t, ~ holds (init d rt) cr t.
 Proof. intros d rt cr t [[b [Hb _]] | Hin]; cbn in *; [discriminate | contradiction]. Qed.
 
 Lemma init_parks_nothing : forall d rt cr, ~ parked (init d rt) cr.
-Proof. intros d rt cr [r [ok H]]. cbn in H. contradiction. Qed.
+Proof. intros d rt cr [r [ok [H | H]]]; cbn in H; contradiction. Qed.
 
 (* ------------------------------------------------------------------------------------------------
    4. the finite table (the cells the harness drives through the real code)
@@ -469,7 +529,7 @@ Lemma pinned_cross_node_refuted_remote :
 Proof. exists w_cell_remote. split; [reflexivity|]. split; vm_compute; reflexivity. Qed.
 
 Lemma pinned_secret_path_refuted :
-  exists c, attaches (cell_open {| v_validate_first := true; v_secret_isvalid := false |} c) = true /\ cell_entitled c = false.
+  exists c, attaches (cell_open {| v_validate_first := true; v_secret_isvalid := false; v_wait_agree := true |} c) = true /\ cell_entitled c = false.
 Proof. exists w_cell_revoked. split; vm_compute; reflexivity. Qed.
 
 (* general (non-table) form of the pinned defect: ANY connection, ANY request naming a live tunnel id is attached *)
@@ -528,9 +588,9 @@ Definition ex_req9 (m k : N) : request := {| r_mid := m; r_tid := 9; r_secret :=
 Definition ex_x : conn_id := {| c_registered := true; c_client := 14 |}.   (* target client of mapping 2 *)
 
 (* the entitled target arrives early, the listening client then creates tunnel 9, the poll fires: attached *)
-Definition ex_park_ok : list event := [ EOpen 2001 ex_tgt (ex_req9 1 101); EOpen 2000 ex_src (ex_req9 1 101); EResolve 2001 ].
+Definition ex_park_ok : list event := [ EOpen 2001 ex_tgt (ex_req9 1 101); EOpen 2000 ex_src (ex_req9 1 101); EResolve 2001; EWaitResolve 2001 ].
 (* the target client of ANOTHER mapping (right secret of its own mapping) arrives early on the same tunnel id *)
-Definition ex_park_other : list event := [ EOpen 2001 ex_x (ex_req9 2 102); EOpen 2000 ex_src (ex_req9 1 101); EResolve 2001 ].
+Definition ex_park_other : list event := [ EOpen 2001 ex_x (ex_req9 2 102); EOpen 2000 ex_src (ex_req9 1 101); EResolve 2001; EWaitResolve 2001 ].
 
 Lemma parked_entitled_attaches :
   let s := run current ex_cfg (init ex_db2 (fun _ => None)) ex_park_ok in
@@ -625,5 +685,41 @@ Lemma client_id_guard_not_redundant :
 Proof.
   exists {| m_listen := 0; m_target := 12; m_secret := 103; m_revoked := false; m_expired := false; m_active := true |}.
   repeat split; vm_compute; reflexivity.
+Qed.
+
+(* ------------------------------------------------------------------------------------------------
+   10. handleLocalBridgeWait: the bridge that appears during the wait need not be the one the record spoke about
+   ------------------------------------------------------------------------------------------------ *)
+(* a stale record says "tunnel 9, mapping 2, on THIS node" with no bridge; mapping 2's target opens 9 and waits; the record goes
+   away; mapping 1's listener opens the same id; the wait finds a bridge *)
+Definition stale_rt : tid -> option route := fun t => if N.eqb t 9 then Some {| ro_node := 1; ro_mid := 2 |} else None.
+Definition ex_wait_other : list event :=
+  [ EOpen 2001 ex_x (ex_req9 2 102); ESetRoute 9 None; EOpen 2000 ex_src (ex_req9 1 101); EWaitResolve 2001 ].
+(* ... and the legitimate order: mapping 2's own listener creates the bridge the record announced *)
+Definition ex_wait_ok : list event :=
+  [ EOpen 2001 ex_x (ex_req9 2 102); ESetRoute 9 None; EOpen 2000 {| c_registered := true; c_client := 13 |} (ex_req9 2 102); EWaitResolve 2001 ].
+
+Lemma local_wait_revalidates :
+  (let s := run current ex_cfg (init ex_db2 stale_rt) ex_wait_other in
+   s_wait (run current ex_cfg (init ex_db2 stale_rt) (firstn 3 ex_wait_other)) <> [] /\
+   s_tun s 9 = Some {| b_mid := 1; b_src := Some 2000; b_tgt := None |} /\ s_log s = [(2000, 9, true)] /\ s_wait s = []) /\
+  (let s := run current ex_cfg (init ex_db2 stale_rt) ex_wait_ok in
+   s_tun s 9 = Some {| b_mid := 2; b_src := Some 2000; b_tgt := Some 2001 |} /\ s_log s = [(2001, 9, true); (2000, 9, true)]).
+Proof.
+  cbv zeta. split.
+  - split; [vm_compute; discriminate|]. repeat split; vm_compute; reflexivity.
+  - split; vm_compute; reflexivity.
+Qed.
+
+(* without the comparison at the end of the wait the waiting request is attached to the OTHER mapping's bridge *)
+Lemma local_wait_without_recheck_refuted :
+  let v := {| v_validate_first := true; v_secret_isvalid := true; v_wait_agree := false |} in
+  let s := run v ex_cfg (init ex_db2 stale_rt) ex_wait_other in
+  holds s 2001 9 /\ s_tun s 9 = Some {| b_mid := 1; b_src := Some 2000; b_tgt := Some 2001 |} /\ In (2001, 9, false) (s_log s).
+Proof.
+  cbv zeta. split; [|split].
+  - left. exists {| b_mid := 1; b_src := Some 2000; b_tgt := Some 2001 |}. split; [vm_compute; reflexivity | right; reflexivity].
+  - vm_compute. reflexivity.
+  - vm_compute. left. reflexivity.
 Qed.
 Close Scope N_scope.
